@@ -1103,3 +1103,35 @@ def split_conditional_returns(fn: ast.FunctionDef) -> int:
             i += 1
     rewrite(fn.body)
     return count
+
+
+def split_conditional_rebind_return(fn: ast.FunctionDef) -> int:
+    """``if C: x = E`` immediately followed by ``return x``  ->  ``if C: return E`` / ``return x`` (at the end of any block, ``x`` a
+    plain name, the ``if`` without ``else`` and with that single assignment as its body).  The same decision as the early-return
+    form, written as a conditional rebinding of the value that is returned."""
+    count = 0
+
+    def rewrite(block: t.List[ast.stmt]) -> None:
+        nonlocal count
+        for i in range(len(block) - 1):
+            st, nxt = block[i], block[i + 1]
+            if isinstance(st, ast.If) and not st.orelse and len(st.body) == 1 and isinstance(st.body[0], ast.Assign) \
+                    and len(st.body[0].targets) == 1 and isinstance(st.body[0].targets[0], ast.Name) \
+                    and isinstance(nxt, ast.Return) and isinstance(nxt.value, ast.Name) and nxt.value.id == st.body[0].targets[0].id:
+                name = nxt.value.id
+                # the new value must not be needed by the test of a later statement (there is none: the return follows directly)
+                ret = ast.Return(value=st.body[0].value)
+                ast.copy_location(ret, st.body[0])
+                st.body[0] = ret
+                count += 1
+                _ = name
+        for st in block:
+            if not isinstance(st, (ast.FunctionDef, ast.AsyncFunctionDef, ast.ClassDef)):
+                for fld in ('body', 'orelse', 'finalbody'):
+                    sub = getattr(st, fld, None)
+                    if isinstance(sub, list) and sub and isinstance(sub[0], ast.stmt):
+                        rewrite(sub)
+                for h in getattr(st, 'handlers', []) or []:
+                    rewrite(h.body)
+    rewrite(fn.body)
+    return count
